@@ -106,11 +106,20 @@ Section Progress.
       eexists. split; [rewrite nth_error_app2, Nat.sub_diag by lia; reflexivity|reflexivity].
   Qed.
 
+  Lemma inv0_ServeSkip s s' sid : Inv0 s -> step s (LServeSkip sid) = Some s' -> Inv0 s'.
+  Proof.
+    intros I H. destruct I as [Zf Zr Zp Zl Zn Zb Zq]. open_step H.
+    destruct (crashed s); [discriminate|]. destruct (srv_at s sid); [|discriminate].
+    destruct (server s) eqn:Es; [discriminate|]. destruct (_ && _); [|discriminate]. injection H as <-.
+    constructor; cbn; auto.
+    intros j Hk. destruct (Zq j Hk) as (A & _). congruence.
+  Qed.
+
   Lemma inv0_step s l s' : Inv0 s -> step s l = Some s' -> Inv0 s'.
   Proof.
     intros I H.
     destruct l; try (eapply inv0_RunWake; eassumption); try (eapply inv0_BootCrash; eassumption);
-      try (eapply inv0_BootCreate; eassumption).
+      try (eapply inv0_BootCreate; eassumption); try (eapply inv0_ServeSkip; eassumption).
     all: destruct I as [Zf Zr Zp Zl Zn Zb Zq]; open_step H; crush_step H.
     all: try (constructor; cbn; assumption).
     (* serve goroutines: only a pc changes *)
@@ -118,7 +127,7 @@ Section Progress.
               | |- Inv0 (with_srvnet _ (upd_srv _ _ (set_pc _)) _) => idtac
               | |- Inv0 (with_errs (with_srvnet _ (upd_srv _ _ (set_pc _)) _) _) => idtac
               end;
-              constructor; cbn; auto; intros j Hk; destruct (Zq j Hk) as (A & B & C);
+              constructor; cbn; auto; intros j Hk; destruct (Zq j Hk) as (A & B & C); try discriminate;
               split; [exact A|]; split; [exact B|]; apply probe_keep_pc; exact C).
     (* boot creates the server *)
     all: try (match goal with
